@@ -261,10 +261,15 @@ class Engine(
                     # Deduplication upstream.
                     return select
             case Projection():
-                if select.has_deduplication:
+                if select.has_deduplication or (
+                    select.is_compound and not select.sort.columns_required <= operation.columns
+                ):
                     # There was a Duplication upstream, so we need to ensure
                     # that is applied before this Projection via a nested
-                    # subquery.  Instead of applying the existing subquery
+                    # subquery (and the same goes for a Chain whose sort needs
+                    # a column this Projection drops: the Projection cannot be
+                    # moved into the Chain's operands then).
+                    # Instead of applying the existing subquery
                     # operations, though, we apply one without any sort or
                     # slice that might exist, and save those for the new outer
                     # query, since putting those in a subquery would destroy
@@ -602,7 +607,20 @@ class Engine(
                     executable = executable.distinct()
         if select.has_sort:
             if columns_available is None:
-                columns_available = self.extract_mapping(select.skip_to.columns, executable.selected_columns)
+                if not all(isinstance(term.expression, ColumnReference) for term in select.sort.terms):
+                    # The ORDER BY terms of a compound SELECT can only be its
+                    # result columns, not expressions; sort a subquery instead.
+                    subquery = executable.subquery()
+                    columns_available = self.extract_mapping(select.skip_to.columns, subquery.columns)
+                    executable = self.select_items(
+                        sorted(columns_available.items(), key=lambda item: self.get_identifier(item[0])),
+                        subquery,
+                        *extra_columns,
+                    )
+                else:
+                    columns_available = self.extract_mapping(
+                        select.skip_to.columns, executable.selected_columns
+                    )
             executable = executable.order_by(
                 *[self.convert_sort_term(term, columns_available) for term in select.sort.terms]
             )
